@@ -2,6 +2,7 @@ package main
 
 import (
 	"fmt"
+	"go/token"
 	"go/types"
 
 	"golang.org/x/tools/go/ssa"
@@ -36,10 +37,29 @@ func (vc *VC) evalClause(fr *Frame, st *State, c *Clause, at *ssa.BasicBlock, su
 		if v.T.T == nil {
 			v = vc.operand(fr, st, phi)
 		}
-		if vc.mode == ModeBV {
-			return mk(fmt.Sprintf("(and (bvsge %s (bvneg (_ bv1 64))) (bvslt %s #x4000000000000000))", v.T.S, v.T.S), sortBool)
+		// upper bound: the header compares index+1 against the length taken before the loop
+		var bound Term
+		for _, ins := range phi.Block().Instrs {
+			if b, ok := ins.(*ssa.BinOp); ok && b.Op == token.LSS {
+				if inc, ok := b.X.(*ssa.BinOp); ok && inc.Op == token.ADD && inc.X == phi {
+					if lv, ok := b.Y.(ssa.Instruction); ok && lv.Block() != phi.Block() {
+						bound = vc.operand(fr, st, b.Y).T
+					}
+				}
+			}
 		}
-		return mk(fmt.Sprintf("(and (>= %s (- 1)) (< %s 4611686018427387904))", v.T.S, v.T.S), sortBool)
+		if vc.mode == ModeBV {
+			r := mk(fmt.Sprintf("(and (bvsge %s (bvneg (_ bv1 64))) (bvslt %s #x4000000000000000))", v.T.S, v.T.S), sortBool)
+			if bound.T != nil {
+				r = tAnd(r, mk(fmt.Sprintf("(bvslt %s %s)", v.T.S, bound.S), sortBool))
+			}
+			return r
+		}
+		r := mk(fmt.Sprintf("(and (>= %s (- 1)) (< %s 4611686018427387904))", v.T.S, v.T.S), sortBool)
+		if bound.T != nil {
+			r = tAnd(r, mk(fmt.Sprintf("(< %s %s)", v.T.S, bound.S), sortBool))
+		}
+		return r
 	}
 	return vc.evalSpecBool(vc.frameEnv(fr, st, at, sub), c)
 }
